@@ -47,7 +47,7 @@ class SpecRT:
                      'old_dict', 'dict_same', 'any_mem', 'any_of', 'any_is_int', 'any_int_value', 'str_is_int_of',
                      'any_is_none', 'any_eq', 'any_same', 'returned_class', 'is_the_election', 'dict_int_values_between', 'int_value_of', 'mem_opt', 'length_opt', 'slack0',
                      'dref', 'dict_has_ref', 'dict_copy_of', 'any_is_str',
-                     'str_has', 'visited', 'snap_vote'}
+                     'str_has', 'visited', 'snap_vote', 'dhas_in', 'dval_in'}
 
     def init(self):
         self.ctx = None
@@ -172,8 +172,12 @@ class SpecRT:
         if name == 'modifies_ghost':
             if ctx is not None and ex.spec_mode == 'pre':
                 ctx.frame_declared = True
-                for fa in e.args:
-                    ctx.modifies.append(('ghost', ast.literal_eval(fa)))
+                names = [ast.literal_eval(fa) for fa in e.args]
+                if 'nlog' in names:
+                    # the action log is one abstraction: whoever may add an action may change its bookkeeping ghosts
+                    names += [g for g in ('lastcomplete', 'hooked') if g not in names]
+                for g in names:
+                    ctx.modifies.append(('ghost', g))
             return ex.ok(NONE, st)
         if name == 'label':
             return ex.ok(NONE, st)
